@@ -14,6 +14,11 @@ def render_pil(pil):
 
 
 class CollectSuite(Suite):
+    has_py_property = True
+
+    def py_property(self, case, out):
+        return property_violation(case, out)
+
     name = "collect_peptide_scores_per_protein"
     imports = "From PGF Require Import Base.Prelude Model.Results Model.ProteinGroups Model.Scoring Harness.H05."
     case_type = "c05_in * c05_out"
